@@ -1,7 +1,7 @@
 ---------------------------- MODULE MC_OpMachine ----------------------------
 (* Bounded instances of OpMachine and the per-program export (one JSON line  *)
 (* per complete program with everything layer A says about it).             *)
-EXTENDS OpMachine, Json, IOUtils
+EXTENDS OpMachine, Json, IOUtils, TLC
 
 RW == INSTANCE RewriteImpl WITH RmulBug <- (IOEnv.OM_RMULBUG = "1")
 
@@ -57,9 +57,13 @@ Line(e) ==
 
 Export ==
   IF Complete
-    THEN Serialize(ToJson(Line(Top)) \o "\n", IOEnv.OUT_FILE,
-                   [format |-> "TXT", charset |-> "UTF-8",
-                    openOptions |-> <<"WRITE", "CREATE", "APPEND">>]).exitValue = 0
+    THEN \/ Serialize(ToJson(Line(Top)) \o "\n", IOEnv.OUT_FILE,
+                      [format |-> "TXT", charset |-> "UTF-8",
+                       openOptions |-> <<"WRITE", "CREATE", "APPEND">>]).exitValue = 0
+         \* a line that cannot be evaluated (a value leaves TLC's 32-bit integers) or written makes Serialize fail: say
+         \* so instead of dropping the program without a trace (a constraint that is merely FALSE would); the harness
+         \* counts these markers and refuses a run in which more than a small share of the programs is lost
+         \/ PrintT(<<"EXPORT-DROPPED", Top.t>>)
     ELSE TRUE
 \* layer C refines layer A: the class tree the overloads build evaluates to the documented table.
 \* With the pinned tree's __rmul__ slip (OM_RMULBUG=1) the composed class tree can be ill-typed; the
